@@ -1,2 +1,4 @@
 import MimicProps.C18
 import MimicProps.C04
+import MimicProps.C11
+import MimicProps.C05
